@@ -200,3 +200,19 @@ class RecTrans(RecReg, TransformerMixin):
 
     def transform(self, X):
         return self.predict(X).reshape((-1, 1))
+
+
+class WarmReg(RecReg):
+    """like RecReg, but the fitted state lives in a numpy array that a later fit overwrites IN PLACE (as warm-started
+    linear models do with coef_): a "copy" that shares memory with its original is exposed by re-training it"""
+
+    def fit(self, X, y, sample_weight=None):
+        RecReg.fit(self, X, y, sample_weight)
+        if hasattr(self, "state_"):
+            self.state_[0] = self.sumy_
+        else:
+            self.state_ = numpy.array([float(self.sumy_), 1.0])
+        return self
+
+    def predict(self, X):
+        return numpy.array([self.state_[0] + r for r in ids(X)], dtype=numpy.float64)
